@@ -473,7 +473,7 @@ fn gen_c16(seed: u64, idx: usize, tier: Tier) -> RunScenario {
             files.push((format!("{}/monorail/argmap/base.json", t.path), body.clone()));
         }
     }
-    let spec = WorldSpec { targets, cmd_files, files, sequences: vec![], max_retained_runs: 2, gitignore: vec![], git: true, lock_host: None, default_ports: 0, omit_max_retained: false };
+    let spec = WorldSpec { targets, cmd_files, files, sequences: vec![], max_retained_runs: 2, gitignore: vec![], git: true, lock_host: None, default_ports: 0, omit_max_retained: false, sha256_repo: false };
     let opts = RunOpts { commands: cmds.iter().map(|s| s.to_string()).collect(), ..Default::default() };
     let mut script = RunScript::simple(opts);
     // one scenario in four: a few members of the wide layer exit the moment they have started, while monorail is
@@ -1417,7 +1417,7 @@ fn gen_c11(seed: u64, idx: usize, _tier: Tier) -> (RunScenario, C11Extra) {
     if rng.chance(2, 3) {
         rng.shuffle(&mut targets);
     }
-    let spec = WorldSpec { targets, cmd_files, files, sequences: vec![], max_retained_runs: 2, gitignore: vec![], git: true, lock_host: None, default_ports: 0, omit_max_retained: false };
+    let spec = WorldSpec { targets, cmd_files, files, sequences: vec![], max_retained_runs: 2, gitignore: vec![], git: true, lock_host: None, default_ports: 0, omit_max_retained: false, sha256_repo: false };
     let mut opts = RunOpts::default();
     let k = rng.range(1, cmds.len());
     opts.commands = cmds[..k].to_vec();
